@@ -660,7 +660,8 @@ Theorem sle_setup_chemical_lemma : forall V st nz si st' ok c,
   c = si /\ length (filter (fun i => existsb (Nat.eqb i) nz) (s_lle_index V)) = 1%nat.
 Proof.
   intros V st nz si st' ok c H HC. unfold sle_setup in H.
-  destruct (opt_eqb idx_eqb (e_nonzero st) (Some nz)); [inversion H; subst; discriminate|].
+  destruct (opt_eqb idx_eqb (e_nonzero st) (Some nz)).
+  { destruct (e_index st) as [|l]; [|destruct (find_pos si l)]; inversion H; subst; discriminate. }
   destruct (Nat.eqb (length (filter (fun i => existsb (Nat.eqb i) nz) (s_lle_index V))) 1) eqn:N.
   - inversion H; subst. simpl in HC. inversion HC. apply Nat.eqb_eq in N. auto.
   - destruct (find_pos si _); inversion H; subst; discriminate.
@@ -1159,4 +1160,117 @@ Proof.
   intros V o st s si T P x st' s' r H. unfold sle_call in H. simpl in H.
   destruct (update_solubility si SAll (nthq (q_s s) si + nthq (q_l s) si) (q_l s) (q_s s) x) as [ls|e];
     inversion H; subst; simpl; auto.
+Qed.
+
+(* ------------------------------------------------------------------ SLE: what is remembered between calls, history independence *)
+
+Definition lle_present (V : senv) (nz : list nat) : list nat :=
+  filter (fun i => existsb (Nat.eqb i) nz) (s_lle_index V).
+
+(* what the solver remembers between calls is consistent: a remembered set of chemicals comes with the list index built
+   for it (never the all-chemicals slice of a given-solubility call) and is only remembered for mixtures *)
+Definition sst_wf (V : senv) (st : sle_st) : Prop :=
+  forall nz, e_nonzero st = Some nz ->
+    e_index st = SList (lle_present V nz) /\ length (lle_present V nz) <> 1%nat.
+
+Lemma sst_init_wf V act : sst_wf V (sst_init act).
+Proof. intros nz H; discriminate. Qed.
+
+Lemma opt_idx_eqb_eq a nz : opt_eqb idx_eqb a (Some nz) = true -> a = Some nz.
+Proof. destruct a as [l|]; simpl; [|discriminate]. intros H. apply idx_eqb_eq in H. congruence. Qed.
+
+Lemma sle_setup_wf V st nz si st' ok : sst_wf V st -> sle_setup V st nz si = (st', ok) -> sst_wf V st'.
+Proof.
+  intros WF H. unfold sle_setup in H. fold (lle_present V nz) in H.
+  destruct (opt_eqb idx_eqb (e_nonzero st) (Some nz)).
+  - destruct (e_index st) as [|l] eqn:EI; [|destruct (find_pos si l)]; inversion H; subst;
+      intros nz' HN; simpl in *; rewrite ?EI; destruct (WF nz' HN) as [A B]; rewrite EI in A; auto.
+  - destruct (Nat.eqb (length (lle_present V nz)) 1) eqn:N.
+    + inversion H; subst. intros nz' HN; simpl in *. apply WF; assumption.
+    + apply Nat.eqb_neq in N.
+      destruct (find_pos si (lle_present V nz)); inversion H; subst; intros nz' HN; simpl in *;
+        inversion HN; subst; auto.
+Qed.
+
+Theorem sle_call_wf_lemma : forall V o st s a st' s' r,
+  sst_wf V st -> sle_call V o st s a = (st', s', r) -> sst_wf V st'.
+Proof.
+  intros V o st s a st' s' r WF H. unfold sle_call in H.
+  destruct (sa_solute a) as [si|]; [|inversion H; subst; exact WF].
+  destruct (sa_T a) as [T|], (sa_H a); try (inversion H; subst; exact WF).
+  destruct (sa_sol a) as [x|].
+  - assert (W1 : sst_wf V (mksst None SAll (e_chemical st) (e_sgi st) true (e_act st))) by (intros nz HN; discriminate).
+    match type of H with context [update_solubility ?a1 ?a2 ?a3 ?a4 ?a5 ?a6] =>
+      destruct (update_solubility a1 a2 a3 a4 a5 a6) end; inversion H; subst; exact W1.
+  - cbv zeta in H.
+    assert (W1 : sst_wf V (mksst (e_nonzero st) (e_index st) (e_chemical st) (e_sgi st) true (e_act st))) by exact WF.
+    match type of H with context [if qzerob ?m then _ else _] => destruct (qzerob m) end; [inversion H; subst; exact W1|].
+    match type of H with context [sle_setup ?v ?s0 ?nz ?i] => destruct (sle_setup v s0 nz i) as [st1 ok] eqn:SU end.
+    pose proof (sle_setup_wf _ _ _ _ _ _ W1 SU) as W2.
+    destruct ok; [|inversion H; subst; exact W2].
+    destruct (e_chemical st1) as [c|].
+    + destruct (opt_nth (s_tm V) c); [|inversion H; subst; exact W2].
+      match type of H with context [if ?c then _ else _] => destruct c end; inversion H; subst; exact W2.
+    + match type of H with context [solve_x ?a1 ?a2 ?a3 ?a4 ?a5 ?a6 ?a7] =>
+        destruct (solve_x a1 a2 a3 a4 a5 a6 a7) as [ls1 [x|e]] end; [|inversion H; subst; exact W2].
+      match type of H with context [update_solubility ?a1 ?a2 ?a3 ?a4 ?a5 ?a6] =>
+        destruct (update_solubility a1 a2 a3 a4 a5 a6) end; inversion H; subst; exact W2.
+Qed.
+
+Fixpoint srun (V : senv) (p : sle_st * sstrm) (ops : list sop) : sle_st * sstrm :=
+  match ops with
+  | [] => p
+  | op :: rest => let '(st', s', _) := sstep V p op in srun V (st', s') rest
+  end.
+
+Theorem srun_wf_lemma : forall V ops st s, sst_wf V st -> sst_wf V (fst (srun V (st, s) ops)).
+Proof.
+  intros V ops. induction ops as [|op ops IH]; intros st s WF; simpl; [exact WF|].
+  destruct op as [a o|l sd|act]; simpl.
+  - destruct (sle_call V o st s a) as [[st2 s2] r2] eqn:SC. apply IH. eapply sle_call_wf_lemma; eauto.
+  - apply IH; exact WF.
+  - apply IH. apply sst_init_wf.
+Qed.
+
+(* the set-up of a call from any consistent remembered state agrees with the set-up on a new solver object *)
+Lemma sle_setup_fresh V st nz si st1 ok b : sst_wf V st ->
+  sle_setup V st nz si = (st1, ok) ->
+  exists st2, sle_setup V (mksst None (SList []) None None b (e_act st)) nz si = (st2, ok) /\
+    e_chemical st2 = e_chemical st1 /\ (e_chemical st1 = None -> ok = true -> st2 = st1).
+Proof.
+  intros WF H. unfold sle_setup in *. fold (lle_present V nz) in *. simpl.
+  destruct (opt_eqb idx_eqb (e_nonzero st) (Some nz)) eqn:SH.
+  - apply opt_idx_eqb_eq in SH. destruct (WF nz SH) as [EI N1]. rewrite EI in H.
+    apply Nat.eqb_neq in N1. rewrite N1.
+    destruct (find_pos si (lle_present V nz)) as [p|]; inversion H; subst; eexists; (split; [reflexivity|]); simpl.
+    + split; auto. intros _ _. rewrite ?SH, ?EI. reflexivity.
+    + split; auto. intros _ D; discriminate.
+  - destruct (Nat.eqb (length (lle_present V nz)) 1).
+    + inversion H; subst. eexists; split; [reflexivity|]. simpl. split; auto. intros D; discriminate.
+    + destruct (find_pos si (lle_present V nz)); inversion H; subst; eexists; (split; [reflexivity|]); simpl; split; auto.
+      intros _ D; discriminate.
+Qed.
+
+(* a computed-solubility call gives the same flows and the same outcome whatever calls were made before on this solver *)
+Theorem sle_history_independent_lemma : forall V o st s a st' s' r,
+  sst_wf V st -> sa_sol a = None ->
+  sle_call V o st s a = (st', s', r) ->
+  exists st'', sle_call V o (sst_init (e_act st)) s a = (st'', s', r).
+Proof.
+  intros V o st s a st' s' r WF NS H. unfold sle_call in *. rewrite NS in *.
+  destruct (sa_solute a) as [si|]; [|inversion H; subst; eauto].
+  destruct (sa_T a) as [T|], (sa_H a); try (inversion H; subst; eauto; fail).
+  cbv zeta in *.
+  match type of H with context [if qzerob ?m then _ else _] => destruct (qzerob m) end; [inversion H; subst; eauto|].
+  match type of H with context [sle_setup ?v ?s0 ?nz ?i] =>
+    set (nzv := nz) in *; destruct (sle_setup v s0 nzv i) as [st1 ok] eqn:SU end.
+  assert (W1 : sst_wf V (mksst (e_nonzero st) (e_index st) (e_chemical st) (e_sgi st) true (e_act st))) by exact WF.
+  destruct (sle_setup_fresh _ _ _ _ _ _ true W1 SU) as (st2 & SU2 & CH & EQ).
+  cbn [e_nonzero e_index e_chemical e_sgi e_act sst_init] in *.
+  rewrite SU2.
+  destruct ok; [|inversion H; subst; eauto].
+  rewrite CH. destruct (e_chemical st1) as [c|] eqn:EC.
+  - destruct (opt_nth (s_tm V) c); [|inversion H; subst; eauto].
+    match type of H with context [if ?c then _ else _] => destruct c end; inversion H; subst; eauto.
+  - rewrite (EQ eq_refl eq_refl). eauto.
 Qed.
